@@ -6,6 +6,7 @@ import (
 	"encoding/json"
 	"fmt"
 	"os"
+	"strconv"
 	"strings"
 	"testing"
 	"time"
@@ -64,12 +65,24 @@ func c18Judge(m *Machine, after []int) *Violation {
 	}
 	// (b) a fresh chain initialised from it has byte-identical stores for the listed modules
 	mem1 := sim.OracleMemDumpNoNonce()
-	c2, err := sim.NewChainFromStateAt(m.W, state, exp.Height, c1.Time)
+	// (for every second export height the new chain carries the next revision number in its
+	// chain id, as after an upgrade that restarts the chain from an exported genesis: module state
+	// is keyed by the chain id without revision and must not depend on it)
+	w2 := *m.W
+	if exp.Height%2 == 0 {
+		if i := strings.LastIndex(w2.Cfg.ChainID, "-"); i > 0 {
+			if rev, err := strconv.Atoi(w2.Cfg.ChainID[i+1:]); err == nil {
+				w2.Cfg.ChainID = fmt.Sprintf("%s-%d", w2.Cfg.ChainID[:i], rev+1)
+				c18RevisionBumps++
+			}
+		}
+	}
+	c2, err := sim.NewChainFromStateAt(&w2, state, exp.Height, c1.Time)
 	if err != nil {
 		return violation("C18.I2.import-failed", "InitChain from the exported genesis of height %d failed: %v", c1.Height, err)
 	}
 	c2.AppHash = c1.AppHash
-	hdr := tmproto.Header{ChainID: m.W.Cfg.ChainID, Height: exp.Height, Time: c1.Time}
+	hdr := tmproto.Header{ChainID: w2.Cfg.ChainID, Height: exp.Height, Time: c1.Time}
 	ctx2 := c2.App.BaseApp.NewContext(false, hdr)
 	// chain 1 has to be re-opened to be observed (only one live app per process): reload it
 	s2 := c2.Snap(ctx2, c18Modules...)
@@ -517,6 +530,7 @@ func runC18(t *testing.T, propName, testName string) {
 		if openRound {
 			st.Labels["export-with-open-oracle-round"]++
 		}
+		st.Extra["re-imports-under-the-next-chain-id-revision"] = int64(c18RevisionBumps)
 		if regAVS > 0 {
 			st.Labels["export-with-avs-registered-through-precompile"]++
 		}
@@ -562,6 +576,9 @@ func runC18(t *testing.T, propName, testName string) {
 		statsMu.Unlock()
 	})
 }
+
+// c18RevisionBumps counts re-imports under the next chain-id revision.
+var c18RevisionBumps int
 
 // c18NoExclusions is set while the saved input of a listed finding is re-run.
 var c18NoExclusions bool
